@@ -1151,11 +1151,17 @@ Proof.
     { intros m Hin Et. destruct m as [t o|t o log|t o log]; simpl in Et; subst t.
       - exfalso. assert (Y : In (MInv t2 o) (io_labels ld)) by (rewrite <- F3; apply filter_In; auto).
         unfold io_labels in Y. apply in_flat_map in Y as (l & Hl & Y). rewrite Forall_forall in Hld.
-        specialize (Hld _ Hl). destruct l; simpl in Y, Hld; try destruct Y as [Y|[]]; try destruct Y; try inversion Y; congruence.
+        specialize (Hld _ Hl). destruct l as [t0 o0|t0 e0|t0 o0 log0]; simpl in Y, Hld.
+        + destruct Y as [Y|[]]. inversion Y. congruence.
+        + destruct Y.
+        + destruct Y as [Y|[]]. discriminate.
       - eauto.
       - exfalso. assert (Y : In (MRes t2 o log) (io_labels ld)) by (rewrite <- F3; apply filter_In; auto).
         unfold io_labels in Y. apply in_flat_map in Y as (l & Hl & Y). rewrite Forall_forall in Hld.
-        specialize (Hld _ Hl). destruct l; simpl in Y, Hld; try destruct Y as [Y|[]]; try destruct Y; try inversion Y; congruence. }
+        specialize (Hld _ Hl). destruct l as [t0 o0|t0 e0|t0 o0 log0]; simpl in Y, Hld.
+        + destruct Y as [Y|[]]. discriminate.
+        + destruct Y.
+        + destruct Y as [Y|[]]. inversion Y. congruence. }
     specialize (X Hm [] o2 (or_introl (upd_same _ _ _)) o2 log2 Ok3). exact X. }
   apply in_split in In1 as (A1 & B1 & EA). apply in_split in In2 as (A2 & B2 & EB).
   exists (lins (T1 ++ MRes t1 o1 log1 :: T2 ++ MInv t2 o2 :: T3 ++ MRes t2 o2 log2 :: T4)), A1,
@@ -1163,7 +1169,7 @@ Proof.
   split; [exact Hh|].
   change (MRes t1 o1 log1 :: T2 ++ MInv t2 o2 :: T3 ++ MRes t2 o2 log2 :: T4)
     with ([MRes t1 o1 log1] ++ T2 ++ [MInv t2 o2] ++ T3 ++ [MRes t2 o2 log2] ++ T4).
-  rewrite !lins_app, EA, EB. simpl. rewrite <- !app_assoc. simpl. rewrite <- !app_assoc. reflexivity.
+  rewrite !lins_app, EA, EB. simpl. repeat (rewrite <- app_assoc; simpl). reflexivity.
 Qed.
 
 End Lin.
@@ -1175,3 +1181,4 @@ Arguments PIdle {val arg}. Arguments PInv {val arg}. Arguments PLin {val arg}.
 Arguments wb {val arg}. Arguments mark_ok {val arg}. Arguments mark_next {val arg}.
 Arguments io_marks {val arg}. Arguments io_labels {val arg}. Arguments ph_inv {val arg}.
 Arguments sim {val arg}. Arguments thread_inv {val arg}. Arguments pending {val arg}. Arguments inKr {val arg}.
+Arguments other_thread {val arg}.
